@@ -3,7 +3,8 @@
    abstract per-block search) and Scanner/State.v (what block mode inherits
    from the scanner's and the thread's past; generated from the source). *)
 From Coq Require Import List String NArith ZArith Bool.
-From YV Require Import Gen.ScanState Pat.Blocks Pat.BlocksProofs Scanner.State Scanner.StateProofs.
+From YV Require Import Gen.ScanState Pat.Syntax Pat.MatchList Pat.Atoms Pat.Pipeline Pat.Blocks Pat.BlocksProofs
+  Pat.BlocksPipeline Pat.BlocksPipelineProofs Scanner.State Scanner.StateProofs.
 Import ListNotations.
 Local Open Scope N_scope.
 
@@ -33,6 +34,39 @@ Theorem no_cross_block_match : forall keep scan_one blocks, selects keep -> with
     exists b, In b blocks /\ fst b <= m_start x /\ m_start x + m_len x <= fst b + N.of_nat (List.length (snd b)).
 Proof. exact BlocksProofs.no_cross_block_match. Qed.
 Print Assumptions no_cross_block_match.
+
+(* the per-block search made concrete for the literal family (text, nocase,
+   wide, fullword, masked hex, xor, base64: the pipeline model of C01): run on
+   a block delivered at base b, the pipeline yields exactly the matches of the
+   pipeline run on the block alone, shifted by b ... *)
+Theorem pipeline_offset_translation : forall base sps atoms hits d,
+  forallb unanchored sps = true ->
+  scan_pipeline_at base sps atoms hits d = map (shift_m base) (scan_pipeline sps atoms hits d).
+Proof. exact BlocksPipelineProofs.pipeline_offset_translation. Qed.
+Print Assumptions pipeline_offset_translation.
+
+(* ... so that blocks_union holds with that concrete search in the place of the abstract one *)
+Theorem blocks_union_literal_family : forall keep sps atoms blocks, selects keep ->
+  (forall x, In x (scan_blocks keep (scan_one_literal sps atoms) blocks) -> In x (shifted (scan_one_literal sps atoms) blocks)) /\
+  (forall s, In s (starts (scan_blocks keep (scan_one_literal sps atoms) blocks)) <->
+             In s (starts (shifted (scan_one_literal sps atoms) blocks))).
+Proof. exact BlocksPipelineProofs.blocks_union_literal_family. Qed.
+Print Assumptions blocks_union_literal_family.
+
+(* MatchList::add with the base of the block (GENERATED: both same-start arms
+   move the base together with the end) and the snippet collection of
+   blocks::Scanner::scan: after any sequence of blocks - any order, overlaps,
+   the same start found again shorter or longer - every listed match is, as a
+   whole, a match found in one delivered block (its recorded base is the base
+   of a block that contains the whole range: no match spans two blocks), and
+   a stored snippet covers it (Match::data / data_with_context find the bytes) *)
+Theorem listed_matches_have_block_and_data : forall ctx bs,
+  (forall b, In b bs -> found_in_block b) ->
+  forall m, In m (fst (scan_blocks_b ctx bs)) ->
+    (exists b, In b bs /\ in_block (fst b) m) /\
+    (exists s, In s (snd (scan_blocks_b ctx bs)) /\ covers s m = true).
+Proof. exact BlocksProofs.listed_matches_have_block_and_data. Qed.
+Print Assumptions listed_matches_have_block_and_data.
 
 (* patterns anchored at a fixed offset (`$a at N` as the only use): in every
    block, a match is recorded only at absolute offset N, inside a block that
